@@ -326,6 +326,11 @@ mod keys {
     #[derive(TS, Serialize)]
     #[serde(rename_all_fields = "PascalCase")]
     pub enum K8 { #[serde(rename_all = "SCREAMING_SNAKE_CASE")] Own { inner_field: i32 }, Inherits { inner_field: i32 } }
+    #[derive(TS, Serialize)]
+    pub enum K10 { r#type { a: i32 }, r#match { b: i32 } }
+    #[derive(TS, Serialize, Default)]
+    #[allow(non_camel_case_types)]
+    pub struct r#struct { pub a: i32 }
     #[derive(TS, Serialize, Default)]
     #[serde(rename_all = "kebab-case")]
     pub struct K9 { #[ts(type = "string")] pub created_at: i32, pub event_id: i32, #[ts(type = "string")] pub plain: i32 }
@@ -409,6 +414,18 @@ fn binding_keys() -> Value {
         let mut want: Vec<String> = inner.as_object().map(|o| o.keys().cloned().collect()).unwrap_or_default(); want.sort();
         out.push(json!({"type": format!("K8 variant {k}"), "binding": arm, "binding_keys": got, "serde_json_keys": want, "outer_key": outer, "serde_tag": tag,
                         "agree": got == want && outer == vec![tag.clone()]}));
+    }
+    for (v, k) in [(keys::K10::r#type { a: 0 }, 0usize), (keys::K10::r#match { b: 0 }, 1usize)] {
+        let js = serde_json::to_value(&v).unwrap();
+        let tag = js.as_object().unwrap().keys().next().cloned().unwrap();
+        let inline = keys::K10::inline();
+        let arm = inline.split(" | ").nth(k).unwrap_or("").to_string();
+        let outer = ts_object_keys(&arm);
+        out.push(json!({"type": format!("K10 variant {k} (raw identifier)"), "binding": arm, "outer_key": outer, "serde_tag": tag, "agree": outer == vec![tag.clone()]}));
+    }
+    {
+        let name = <keys::r#struct as TS>::name();
+        out.push(json!({"type": "struct r#struct (raw identifier as type name)", "binding": <keys::r#struct as TS>::decl(), "name": name, "expected_name": "struct", "agree": name == "struct"}));
     }
     let agree = out.iter().all(|o| o["agree"] == json!(true));
     json!({"cases": out, "agree": agree})
